@@ -3,4 +3,5 @@ pub mod bmt_shared;
 pub mod fields_gen;
 pub mod instr_gen;
 pub mod smt;
+pub mod u256;
 pub mod vmstep;
